@@ -149,7 +149,7 @@ pub fn run(ctx: &Ctx, ev: &mut Ev) {
     // (c) seeded random valid / corrupted buffers
     if ctx.want("random") {
         let mut r = ctx.rng(14);
-        let n = ctx.budget(400_000, 12_000_000);
+        let n = ctx.budget(400_000, 60_000_000);
         for i in 0..n {
             let src = crate::memfn::gen_src(&mut r, crate::memfn::SrcKind::Bytes, if i % 100 == 0 && !tiny { 40 } else { 4 });
             check_bytes(&mut drv, ev, &src.bytes, r.below(16), false, miri);
